@@ -514,3 +514,25 @@ ASSUMPTIONS = [
     "modelled here; offsets and contents of TIFF structures belong to C15",
     "the write-after-free of storage_close (C11) is masked in this harness by exempting that one function from ASan",
 ]
+
+
+# ---------------------------------------------------------------- files beyond 4 GiB
+def large_file_runs(ctx, exe, scripts, what):
+    """acquisitions beyond 4 GiB with the writes intercepted (nothing is stored): the model's offsets are unbounded naturals, the
+    writers' are C integer types.  raw: every write is aimed at the number of bytes appended so far; tiff kinds: every section is
+    laid out right behind the previous one (8-aligned) and only an 8-byte link is ever patched inside earlier data."""
+    tmp = os.path.join(C.BUILD, "tmp-storage")
+    for script in scripts:
+        rc, out, err = C.run_lines(exe, script, timeout=180, args=[tmp, "60000"])
+        bad = [l for l in out if l.startswith("ORACLE") or l.startswith("CRASH") or l.startswith("big err")]
+        okl = [l for l in out if l.startswith("big ok")]
+        ctx.cov.setdefault("large_file_runs", []).append({"script": script.split("\n")[0:5], "result": (bad or okl or out[-2:])[:3]})
+        if rc != 0 and not bad:
+            bad = ["CRASH rc=%d %s" % (rc, err[-300:])]
+        if bad or not okl:
+            if any("skipped-no-memory" in l for l in out):
+                ctx.notes.append("large-file run skipped: no memory for the packet")
+                continue
+            ctx.violation("oracle", "h_storage_io:" + (bad[0].split()[1] if bad and len(bad[0].split()) > 1 else "large-file-run-failed"),
+                          ("%s beyond 4 GiB: %s" % (what, bad[0] if bad else " | ".join(out[-3:])))[:300],
+                          {"script": script.split("\n"), "how": "feed the script to .build/<tag>/h_storage_io*/h_storage_io* <tmpdir> 60000"})
